@@ -11,3 +11,29 @@ Theorem C15_vertex_on_its_planes : forall ps d,
   side (getp ps i) (vloc v) = 0 /\ side (getp ps j) (vloc v) = 0 /\ side (getp ps k) (vloc v) = 0.
 Proof. exact vertex_on_its_planes. Qed.
 Print Assumptions C15_vertex_on_its_planes.
+
+From Coq Require Import ZArith List Arith.
+From MV Require Import Model.Cycle Model.CellExact Proofs.CycleProofs Proofs.CycleInv Proofs.CycleClosed Proofs.CellClosed.
+Import ListNotations.
+
+(* combinatorial well-formedness of every cell the exact model builds (all inputs, all dimensionalities, any number of
+   sites): every vertex is the intersection of three DISTINCT planes of the cell, and the dual triangles form a closed
+   oriented surface - each directed edge (i -> j) of a dual triangle is matched by (j -> i): every edge of the cell joins
+   exactly as many vertices from one side as from the other *)
+Theorem C15_built_cells_are_well_formed : forall dim lo hi g sites c,
+  build dim lo hi g sites = Some c ->
+  Inv (ccycle c) /\ length (ptrs (ccycle c)) = length (cplanes c) /\
+  Forall (fun v => let '(a, b, d) := vd v in (a < length (cplanes c) /\ b < length (cplanes c) /\ d < length (cplanes c))%nat) (cverts c) /\
+  Forall (fun v => let '(a, b, d) := vd v in a <> b /\ b <> d /\ d <> a) (cverts c) /\
+  (forall x y, dsum (map vd (cverts c)) x y = 0%Z).
+Proof. exact build_wf. Qed.
+Print Assumptions C15_built_cells_are_well_formed.
+
+Theorem C15_initial_box_is_closed : forall x y, dsum init_duals x y = 0%Z.
+Proof. exact init_closed. Qed.
+Print Assumptions C15_initial_box_is_closed.
+
+(* non-vacuity: a two-generator cell *)
+Example C15_wf_example :
+  exists c, build 3 (0,0,0)%Z (8,8,8)%Z (2,2,2)%Z [(1, 0, (6,6,6))%Z] = Some c /\ length (cverts c) = 10%nat.
+Proof. eexists. split; vm_compute; reflexivity. Qed.
